@@ -206,6 +206,67 @@ pub fn check_pair(rep: &mut Report, orc: &mut Oracle, rng: &mut Rng, a: &StMoc, 
       rep.violation("fold on a space MOC differs from the instants whose space coverage lies inside it", &format!("SFOLD {} | S={}", a.show(), ranges_str(&sm)), &go, &e, "C10_sfold");
     }
   }
+  // ---- the same folds through the store front-end (U64MocStore::time_fold / space_fold), also
+  //      with a space MOC DEEPER than the ST-MOC's space depth that covers only part of a coarse cell
+  {
+    use moc::storage::u64idx::U64MocStore;
+    let st = U64MocStore::get_global_store();
+    let mut smocs: Vec<(u8, Vec<(u64, u64)>)> = Vec::new();
+    if let Some((_, s0)) = b.elems.first() {
+      smocs.push((b.ds, s0.clone()));
+    }
+    if let Some((_, s0)) = a.elems.first() {
+      if let Some((x, y)) = s0.first() {
+        if a.ds < 29 && (y - x) >= 4 {
+          // first quarter of the first range of A's first coverage: deeper, partial
+          smocs.push((a.ds + 1, vec![(*x, x + (y - x) / 4)]));
+          // the whole first coverage plus a quarter of something else
+          let mut v = s0.clone();
+          if let Some((_, s1)) = a.elems.get(1) {
+            if let Some((x1, y1)) = s1.first() {
+              if !s0.iter().any(|(p, q)| p < y1 && x1 < q) && (y1 - x1) >= 4 {
+                v.push((*x1, x1 + (y1 - x1) / 4));
+                v.sort_unstable();
+              }
+            }
+          }
+          smocs.push((a.ds + 1, v));
+        }
+      }
+    }
+    let tm: Vec<(u64, u64)> = b.elems.iter().flat_map(|(t, _)| t.clone()).take(1).collect();
+    let ia = st.insert_stmoc(to_moc2(a)).unwrap();
+    for (d, sm) in &smocs {
+      rep.evaluations += 1;
+      rep.count("folds:store");
+      let is = st.insert_smoc(rm::<Hpx<u64>>(*d, sm)).unwrap();
+      let r = catch(|| st.space_fold(is, ia).and_then(|i| { let v = st.to_ranges(i); let dd = st.get_tmoc_depth(i); let _ = st.drop(i); v.and_then(|v| dd.map(|dd| (dd, v))) }));
+      let e = orc.ask(&format!("SFOLD {} {}", a.wire(), ranges_str(sm)));
+      let go = match &r {
+        Ok(Ok((dd, v))) => format!("depth {} OK {}", dd, ranges_str(&v.iter().map(|r| (r.start, r.end)).collect::<Vec<_>>())),
+        other => format!("{:?}", other),
+      };
+      if go != format!("depth {} {}", a.dt, e) {
+        rep.violation("store space_fold differs from the instants whose space coverage lies inside the S-MOC", &format!("SFOLD(store) {} | S(depth {})={}", a.show(), d, ranges_str(sm)), &go, &format!("depth {} {}", a.dt, e), "C10_sfold");
+      }
+      let _ = st.drop(is);
+    }
+    if !tm.is_empty() {
+      rep.evaluations += 1;
+      let it = st.insert_tmoc(rm::<Time<u64>>(b.dt, &tm)).unwrap();
+      let r = catch(|| st.time_fold(it, ia).and_then(|i| { let v = st.to_ranges(i); let dd = st.get_smoc_depth(i); let _ = st.drop(i); v.and_then(|v| dd.map(|dd| (dd, v))) }));
+      let e = orc.ask(&format!("TFOLD {} {}", a.wire(), ranges_str(&tm)));
+      let go = match &r {
+        Ok(Ok((dd, v))) => format!("depth {} OK {}", dd, ranges_str(&v.iter().map(|r| (r.start, r.end)).collect::<Vec<_>>())),
+        other => format!("{:?}", other),
+      };
+      if go != format!("depth {} {}", a.ds, e) {
+        rep.violation("store time_fold differs from the union of the space coverages at the instants of the T-MOC", &format!("TFOLD(store) {} | T={}", a.show(), ranges_str(&tm)), &go, &format!("depth {} {}", a.ds, e), "C10_tfold");
+      }
+      let _ = st.drop(it);
+    }
+    let _ = st.drop(ia);
+  }
   if !a.elems.is_empty() && !b.elems.is_empty() {
     rep.nontrivial(&case);
   }
